@@ -424,3 +424,27 @@ func checkFilterCallbackReturns(c *core.Ctx, rule, key string, fn *ssa.Function)
 		}
 	}
 }
+
+// helperTouches: h, or a same-package function it calls statically (to the
+// given depth), contains an instruction satisfying pred. Used to decide which
+// extracted helpers a path rule follows (facts.Inliner).
+func helperTouches(h *ssa.Function, depth int, pred func(ssa.Instruction) bool) bool {
+	if h == nil || depth < 0 {
+		return false
+	}
+	for _, f := range facts.WithAnon(h) {
+		for _, b := range f.Blocks {
+			for _, in := range b.Instrs {
+				if pred(in) {
+					return true
+				}
+				if ci, ok := in.(ssa.CallInstruction); ok {
+					if sc := ci.Common().StaticCallee(); sc != nil && sc != h && sc.Pkg == h.Pkg && sc.Blocks != nil && helperTouches(sc, depth-1, pred) {
+						return true
+					}
+				}
+			}
+		}
+	}
+	return false
+}
